@@ -469,6 +469,14 @@ def _set_traits(context, rp, traits):
     to_delete = existing_traits - want_traits
 
     if not to_add and not to_delete:
+        # Nothing to write, but the caller's view of the provider must still
+        # be current, otherwise two racing replacements carrying the same
+        # generation would both succeed.
+        cur_gen = context.session.execute(
+            sa.select(_RP_TBL.c.generation).where(
+                _RP_TBL.c.id == rp.id)).scalar()
+        if cur_gen != rp.generation:
+            raise exception.ResourceProviderConcurrentUpdateDetected()
         return
 
     if to_delete:
